@@ -4,6 +4,7 @@ from msgcheck import *
 import c01
 
 CUR_DEF = ("SBEPP_ENABLE_ASSERTS_WITH_HANDLER", "MSGDRV_CURSOR")
+VISIT_DEF = ("SBEPP_ENABLE_ASSERTS_WITH_HANDLER", "MSGDRV_CURSOR", "MSGDRV_BYTAG")
 WR = "pinms"
 
 
@@ -91,6 +92,8 @@ def run(res, replay=None, visit_only=False):
     nimgs = 4 if res.tier == "quick" else 12
     nseq = 14 if res.tier == "quick" else 40
     cfgs = configs_for(res.tier)
+    if visit_only:
+        cfgs = [(c[0], c[1], c[2], VISIT_DEF) for c in cfgs]
     res.extra["configurations"] = ["%s -std=%s" % (c[0], c[1]) for c in cfgs]
     cases = prepare_many(res.seed, nschemas, cfgs)
     outcome_dist = {"ok": 0, "assert": 0, "oob": 0}
@@ -139,6 +142,17 @@ def run(res, replay=None, visit_only=False):
                         else:
                             start = str(trng.below(max(1, len(img))))
                         script.append("cur %s %s %s" % (path, start, " ".join(seq)))
+            if visit_only:
+                nev = len(expected_names(s, m, v)) + sum(1 for _ in level_views(s, m, v)) - 1
+                ks = list(range(0, nev + 2)) if nev <= 30 else sorted(set([0, 1, 2, nev - 1, nev, nev + 1] + [trng.below(nev) for _ in range(24)]))
+                for k in ks:
+                    script.append("ctrav %d" % k)
+                # by-tag access must behave exactly like the named accessors
+                for op in decode_script(s, m, vtree_as_tree(v)):
+                    w = op.split()
+                    if w[0] in ("getf", "getb", "ginfo", "dinfo"):
+                        script.append(op)
+                        script.append(" ".join([{"getf": "getft", "getb": "getbt", "ginfo": "ginfot", "dinfo": "dinfot"}[w[0]]] + w[1:]))
             names = expected_names(s, m, v)
             jobs.append((m, v, buf, script, len(img), names, len(mlines), len(ilines)))
             mlines += [model_msg_line(s, m), "buf " + hx(buf)] + script
@@ -160,7 +174,22 @@ def run(res, replay=None, visit_only=False):
                     nontriv = (len(op.split()) > 4) if op.startswith("cur") else bool(names)
                     res.count((s.package, m.name, hx(buf)[:40], op, cxx, std), nontriv)
                     bad = None
-                    if op == "ctrav":
+                    if op.startswith("ctrav "):
+                        k = int(op.split()[1])
+                        full = mout[mo + 2 + 1].split(" c=")[0].split()
+                        want = " ".join(full[:k])
+                        got = b2.partition(" | ")[0]
+                        got = got[:got.rfind("c=")].strip() if "c=" in got else got
+                        if got.strip() != want.strip():
+                            bad = ("visit-stop", "stop at callback %d: events `%s`, expected exactly the first %d: `%s`" % (k, got[-160:], k, want[-160:]))
+                    elif op.split()[0] in ("getft", "getbt", "ginfot", "dinfot"):
+                        named = iout[io + 2 + j - 1]
+                        if b2 != named:
+                            bad = ("by-tag", "`%s` returned %s but the named accessor returned %s" % (op, b2, named))
+                    elif op.split()[0] in ("getf", "getb", "ginfo", "dinfo"):
+                        if a != b2:
+                            bad = ("getter", "`%s`: implementation %s, model %s" % (op, b2, a))
+                    elif op == "ctrav":
                         ev, _, nm = b2.partition(" | ")
                         if a in ("ASSERT", "OOB"):
                             bad = ("model-traversal", "model traversal of a well-formed image ends in " + a)
